@@ -76,8 +76,12 @@ func phaseBodies(reps int) {
 	for r := 0; r < reps; r++ {
 		for _, cpus := range []int{1, 2, 3, 8} {
 			sb := align.NewSeqBag(align.NUCLEOTIDS)
-			for i, fl := range []string{"", "C", "CC", "CATGC", "G"} {
-				sb.AddSequence(fmt.Sprintf("s%d", i), fl+ref+"GTT", "")
+			// enough sequences, each long enough, for the workers to overlap in time: the
+			// detector only sees accesses that really happen on different goroutines
+			flanks := []string{"", "C", "CC", "CATGC", "G", "TTGACCA", "GGCATTACGA"}
+			for i := 0; i < 240; i++ {
+				fl := flanks[i%len(flanks)]
+				sb.AddSequence(fmt.Sprintf("s%d", i), fl+flanks[(i/7)%len(flanks)]+ref+"GTT"+fl, "")
 			}
 			orfs := align.NewSeqBag(align.NUCLEOTIDS)
 			orfs.AddSequence("orf", ref, "")
